@@ -78,6 +78,20 @@ def test_rowmodel_distinct_rules():
     check("distinct-plain", RM.distinct_holds({"field": "k", "op": "<", "n": 2}, 1), True)
 
 
+def test_fieldmodel_no_numbers_no_seconds():
+    from cpverif.models import fieldmodel as FM
+
+    fmt = {"kind": "delimited", "dec": ".", "ths": "", "allowed": None}
+    open_decimal = {"name": "f", "type": "Decimal", "empty": False, "length": "", "rule": "0..."}
+    check("decimal-infinity", FM.expected(open_decimal, fmt, "Infinity")[0], FM.REJECT)
+    check("decimal-minus-inf", FM.expected(dict(open_decimal, rule="...0"), fmt, "-inf")[0], FM.REJECT)
+    check("decimal-nan", FM.expected(open_decimal, fmt, "NaN")[0], FM.REJECT)
+    clock = {"name": "f", "type": "DateTime", "empty": False, "length": "", "rule": "hh:mm:ss"}
+    check("second-61", FM.expected(clock, fmt, "12:30:61")[0], FM.REJECT)
+    check("second-60", FM.expected(clock, fmt, "23:59:60")[0], FM.UNJUDGED)
+    check("second-59", FM.expected(clock, fmt, "23:59:59")[0], FM.ACCEPT)
+
+
 def test_fieldmodel_regex_beyond_ascii():
     from cpverif.models import fieldmodel as FM
 
